@@ -1,6 +1,9 @@
+#[macro_use]
+mod out;
 mod c03;
 mod c11;
 mod c13;
+mod c14;
 mod c16;
 mod c18;
 mod report;
@@ -25,6 +28,7 @@ fn props() -> Vec<Box<dyn Property>> {
         Box::new(c11::ReportProp { id: "C11" }),
         Box::new(c11::ReportProp { id: "C12" }),
         Box::new(c13::C13),
+        Box::new(c14::C14),
         Box::new(c16::C16),
         Box::new(c18::C18),
     ]
@@ -46,6 +50,7 @@ fn ctx_from_env(tier: Tier) -> Result<Ctx, String> {
 
 fn main() {
     // expected failures inside solstat (panics, simulated exits) stay quiet
+    out::init();
     std::panic::set_hook(Box::new(|_| {}));
     let args: Vec<String> = std::env::args().collect();
     let code = real_main(&args);
@@ -73,7 +78,7 @@ fn real_main(args: &[String]) -> i32 {
             let ctx = match ctx_from_env(tier) {
                 Ok(c) => c,
                 Err(e) => {
-                    println!("HARNESS: {}", e);
+                    say!("HARNESS: {}", e);
                     return 2;
                 }
             };
@@ -81,7 +86,7 @@ fn real_main(args: &[String]) -> i32 {
             match ps.iter().find(|p| p.id() == id) {
                 Some(p) => framework::check(p.as_ref(), &ctx).exit_code,
                 None => {
-                    println!("HARNESS: unknown property {}", id);
+                    say!("HARNESS: unknown property {}", id);
                     2
                 }
             }
@@ -94,7 +99,7 @@ fn real_main(args: &[String]) -> i32 {
             let ctx = match ctx_from_env(Tier::Quick) {
                 Ok(c) => c,
                 Err(e) => {
-                    println!("HARNESS: {}", e);
+                    say!("HARNESS: {}", e);
                     return 2;
                 }
             };
